@@ -245,7 +245,7 @@ fn gen_name(rng: &mut Rng) -> String {
 fn gen_len(rng: &mut Rng, big: bool) -> usize {
     const SMALL: &[usize] = &[0, 1, 2, 3, 15, 16, 31, 32, 33, 63, 64, 100, 127, 128, 255, 256, 257];
     const BIG: &[usize] = &[511, 512, 1000, 4096, 8191, 8192, 8193];
-    if big && rng.chance(1, 4) {
+    if big && rng.chance(1, 12) {
         *rng.pick(BIG)
     } else if rng.chance(2, 3) {
         *rng.pick(SMALL)
@@ -574,7 +574,7 @@ fn main() {
     }
     let mut rng = Rng::new(args.seed);
     let big = args.thorough() || args.search;
-    let cases = args.budget(400, 6000);
+    let cases = args.budget(400, 2000);
     for _ in 0..cases {
         let cs = rng.next_u64() >> 1;
         run_case(&mut rec, cs, big);
